@@ -81,13 +81,13 @@ def to_bqm(args, returns, exprs, fmt: BQMFormat):  # noqa: C901
         a_vars[sym.name] = Binary(sym.name)
         stbqm = SympyToBQM(a_vars)
 
-        if isinstance(exp, Symbol):
+        if sym.name[0:4] == "_ret":
+            new_e = SympyToBQM(a_vars).visit(exp)
+        elif isinstance(exp, Symbol):
             arg = stbqm.visit(exp)
             new_e = AndConst(
                 a_vars[exp.name], a_vars[exp.name], a_vars[sym.name], sym.name
             )
-        elif sym.name[0:4] == "_ret":
-            new_e = SympyToBQM(a_vars).visit(exp)
         elif isinstance(exp, Not):
             args = [stbqm.visit(a) for a in exp.args]
             new_e = NotConst(args[0], a_vars[sym.name], sym.name)
